@@ -306,7 +306,7 @@ def seal_family(prop):
                 (lambda l: l["obs"].update(loadNone="equal", clear=["NodeCredentials:node.cert.priv"])),
         driver="seal", trace_module="SealTrace.tla", trace_consts=SEAL_CONSTS, level="model_checking", fixed=None,
         materialise=seal_materialise,
-        nontrivial=lambda p, l: (l["op"]["op"] == "Crypt") if p == "C11" else (l["op"]["op"] in ("Rec", "Flow")),
+        nontrivial=lambda p, l: (l["op"]["op"] == "Crypt") if p == "C11" else ((l["op"]["op"] == "Rec" and bool(l["op"].get("wrapper")) and l["res"] == "ok") or (l["op"]["op"] == "Flow" and l["res"] == "ok")),
         mc=dict(quick=[("MC_Seal.tla", "MC_Seal.cfg")], thorough=[("MC_Seal.tla", "MC_Seal.cfg")]),
         gen=[dict(module="SealGen.tla", cfg="SealGen_a.cfg", depth=12, num=dict(quick=60, thorough=1500), tag="a", beh_cfg={})],
         extra=seal_extra,
@@ -411,6 +411,12 @@ def iso_extra(prop, tier, seed):
                                                   for sw in (False, True) for b in ("token", "auth", "tokenDup")]))
     out.append(dict(id="sch_unwrap", ops=[dict(op="Schedule", a=a, b=b, gate=g, spare=sp, lstate=False, bare=False, sw=True)
                                            for sp in (0, 2) for g in ("unwrap1", "unwrap2", "unwrap3") for (a, b) in (("auth", "auth"), ("auth", "token"), ("token", "auth"))]))
+    # two requests of ONE node identity overlap: its poll (not authorised yet) is held at the record lookup while the same
+    # keys enrol with an activation token, and the other way round
+    out.append(dict(id="sch_same_identity", ops=[dict(op="Schedule", a="poll", b="tokenSame", gate=g, spare=0, lstate=False, bare=False, sw=sw)
+                                                  for sw in (False, True) for g in ("niLoad", "none")] +
+                                                 [dict(op="Schedule", a="poll", b="token", gate="niLoad", spare=0, lstate=False, bare=False, sw=False),
+                                                  dict(op="Schedule", a="poll", b="auth", gate="niLoad", spare=2, lstate=False, bare=False, sw=False)]))
     # the listener's own options carry a state VALUE shared by every handshake
     out.append(dict(id="sch_lstate", ops=[dict(op="Schedule", a=a, b=b, gate=g, spare=sp, lstate=True) for sp in (0, 2) for (a, b, g) in pairs]))
     for r in range(3 if tier == "quick" else 40):
